@@ -1,7 +1,7 @@
 SPECIFICATION Spec
 CONSTANTS
   Ids = {"r1", "r2"}
-  Lens = {1, 7}
+  Lens = {7}
   MaxSizes = {19, 20, 24}
   SegMax = 10
   MaxBatches = 2
